@@ -12,7 +12,9 @@
 
 use camharness::*;
 use cameleon_genapi::formula::{self, BinOpKind, EvaluationResult, Expr, UnOpKind};
-use cameleon_genapi::GenApiError;
+use cameleon_genapi::builder::GenApiBuilder;
+use cameleon_genapi::store::{DefaultNodeStore, NodeData};
+use cameleon_genapi::{GenApiError, NodeStore};
 use std::collections::HashMap;
 
 // ---------------------------------------------------------------------------------------
@@ -85,8 +87,9 @@ enum T {
 }
 
 fn int_lit_value(s: &str) -> i64 {
-    if let Some(h) = s.strip_prefix("0x") {
-        i64::from_str_radix(h, 16).unwrap()
+    if let Some(h) = s.strip_prefix("0x").or_else(|| s.strip_prefix("0X")) {
+        // a hexadecimal literal denotes a 64 bit pattern
+        u64::from_str_radix(h, 16).unwrap() as i64
     } else {
         s.parse().unwrap()
     }
@@ -170,6 +173,10 @@ fn render(t: &T, ctx: u8, mode: Paren, rng: &mut Rng, out: &mut Vec<String>) {
             Paren::Full => !leaf,
             Paren::Random => rng.chance(1, 5),
         };
+    // a unary plus is transparent wherever a unary expression may start
+    if mode == Paren::Random && ctx <= P_UNARY && own >= P_UNARY && rng.chance(1, 8) {
+        out.push("+".into());
+    }
     if paren {
         out.push("(".into());
     }
@@ -215,6 +222,8 @@ enum Ws {
     None,
     One,
     Random,
+    /// random, but only characters that may occur in XML character data
+    Xml,
 }
 #[derive(Clone, Copy, PartialEq, Debug)]
 enum Ent {
@@ -224,16 +233,17 @@ enum Ent {
 }
 
 fn join(tokens: &[String], ws: Ws, ent: Ent, rng: &mut Rng) -> String {
-    const GAPS: [&str; 7] = ["", " ", "  ", "\t", "\n", "\r\n", " \t "];
+    const GAPS: [&str; 12] = ["", " ", "  ", "\t", "\n", "\r\n", " \t ", "\x0b", "\x0c", "\x01", "\x1f", "\x7f"];
     let mut s = String::new();
     let gap = |rng: &mut Rng| -> &'static str {
         match ws {
             Ws::None => "",
             Ws::One => " ",
             Ws::Random => *rng.pick(&GAPS),
+            Ws::Xml => *rng.pick(&GAPS[..7]),
         }
     };
-    s.push_str(if ws == Ws::Random { gap(rng) } else { "" });
+    s.push_str(if ws == Ws::Random || ws == Ws::Xml { gap(rng) } else { "" });
     for (i, t) in tokens.iter().enumerate() {
         if i > 0 {
             s.push_str(gap(rng));
@@ -252,7 +262,7 @@ fn join(tokens: &[String], ws: Ws, ent: Ent, rng: &mut Rng) -> String {
             }
         }
     }
-    s.push_str(if ws == Ws::Random { gap(rng) } else { "" });
+    s.push_str(if ws == Ws::Random || ws == Ws::Xml { gap(rng) } else { "" });
     s
 }
 
@@ -315,14 +325,33 @@ fn ref_lex(src: &str) -> Result<Vec<RTok>, String> {
             out.push(RTok::Name(chars[st..i].iter().collect()));
         } else if c.is_ascii_digit() || c == '.' {
             let st = i;
-            if c == '0' && chars.get(i + 1) == Some(&'x') {
+            if c == '0' && matches!(chars.get(i + 1), Some('x') | Some('X')) {
                 i += 2;
                 while i < chars.len() && chars[i].is_ascii_hexdigit() {
                     i += 1;
                 }
             } else {
-                while i < chars.len() && (chars[i].is_ascii_digit() || chars[i] == '.') {
+                // digits [. digits] | . digits, then an optional exponent e[+-]digits
+                while i < chars.len() && chars[i].is_ascii_digit() {
                     i += 1;
+                }
+                if chars.get(i) == Some(&'.') {
+                    i += 1;
+                    while i < chars.len() && chars[i].is_ascii_digit() {
+                        i += 1;
+                    }
+                }
+                if matches!(chars.get(i), Some('e') | Some('E')) {
+                    let mut j = i + 1;
+                    if matches!(chars.get(j), Some('+') | Some('-')) {
+                        j += 1;
+                    }
+                    if chars.get(j).map_or(false, |c| c.is_ascii_digit()) {
+                        while j < chars.len() && chars[j].is_ascii_digit() {
+                            j += 1;
+                        }
+                        i = j;
+                    }
                 }
             }
             out.push(RTok::Num(chars[st..i].iter().collect()));
@@ -385,6 +414,8 @@ impl RefParser {
             Ok(T::Un(U::Neg, false, self.unary()?.into()))
         } else if self.eat("~") {
             Ok(T::Un(U::Not, false, self.unary()?.into()))
+        } else if self.eat("+") {
+            self.unary()
         } else {
             self.power()
         }
@@ -409,10 +440,15 @@ impl RefParser {
         match self.t.get(self.i).cloned() {
             Some(RTok::Num(s)) => {
                 self.i += 1;
-                if s.contains('.') {
-                    s.parse::<f64>().map_err(|e| e.to_string())?;
+                if let Some(h) = s.strip_prefix("0x").or_else(|| s.strip_prefix("0X")) {
+                    // up to 64 bits
+                    u64::from_str_radix(h, 16).map_err(|_| "hex literal empty or wider than 64 bits".to_string())?;
+                    Ok(T::Int(s))
+                } else if s.contains(|c| c == '.' || c == 'e' || c == 'E') {
+                    s.parse::<f64>().map_err(|_| "malformed float literal".to_string())?;
                     Ok(T::Float(s))
                 } else {
+                    s.parse::<i64>().map_err(|_| "decimal literal above i64::MAX".to_string())?;
                     Ok(T::Int(s))
                 }
             }
@@ -704,11 +740,16 @@ fn close(a: &str, b: &str, ulps: u64) -> bool {
 // ---------------------------------------------------------------------------------------
 
 const VAR_NAMES: [&str; 8] = ["X", "Y", "VAR1", "Foo1.Max", "a_b", "LN", "E1", "PIX"];
-const INT_LITS: [&str; 22] = [
+const INT_LITS: [&str; 30] = [
+    "0X1F", "0xFFFFFFFFFFFFFFFF", "0x8000000000000000", "0XdeadBEEF00000000", "0xffffffff00000000",
+    "0x00000000000000000001", "0X0", "0x8000000000000001",
     "0", "1", "2", "3", "7", "10", "63", "64", "65", "007", "255", "0xff", "0xFF00", "0x0", "0x7FFFFFFFFFFFFFFF",
     "9223372036854775807", "4294967296", "4294967297", "0x100000000", "1000000007", "0xaBc", "18",
 ];
-const FLOAT_LITS: [&str; 20] = [
+const FLOAT_LITS: [&str; 42] = [
+    "1e3", "1.5E-3", "1.e2", ".5e1", "2E+2", "1e400", "1e-400", "123456789e-5", "0e0", "1e22", "1e23",
+    "4.9e-324", "2.4703282292062327e-324", "2.4703282292062328e-324", "1.7976931348623157e308",
+    "1.7976931348623159e308", "1e-320", "9007199254740993e0", "1E0", "00.5e+01", "1e308", "2.2250738585072014e-308",
     "0.5", ".5", "1.", "0.", ".0", "1.5", "2.25", "0.1", "3.14159", "100.001", "0.30000000000000004",
     "0.1000000000000000055511151231257827", "123456789012345678901234567890.5", "9007199254740993.",
     "9223372036854775808.", "0.000000000000000000000000000001", "1.7976931348623157", "00.50", "4.9406564584124654",
@@ -722,10 +763,10 @@ fn gen_leaf(rng: &mut Rng) -> T {
             if rng.chance(1, 4) {
                 let v = rng.interesting_i64();
                 let v = if v < 0 { v.wrapping_neg().max(0) } else { v };
-                if rng.bool() {
-                    T::Int(format!("{v}"))
-                } else {
-                    T::Int(format!("0x{v:x}"))
+                match rng.below(4) {
+                    0 | 1 => T::Int(format!("{v}")),
+                    2 => T::Int(format!("0x{v:x}")),
+                    _ => T::Int(format!("0X{:X}", rng.next_u64())),
                 }
             } else {
                 T::Int((*rng.pick(&INT_LITS)).into())
@@ -742,6 +783,13 @@ fn gen_leaf(rng: &mut Rng) -> T {
                 s.push_str(&digits(rng, b));
                 if s == "." {
                     s = "0.".into();
+                }
+                if rng.chance(1, 3) {
+                    let e = rng.below(700) as i64 - 350;
+                    s.push_str(&format!("{}{}", if rng.bool() { "e" } else { "E" }, e));
+                    if rng.chance(1, 4) && e >= 0 {
+                        s = s.replace('e', "e+").replace('E', "E+");
+                    }
                 }
                 T::Float(s)
             } else {
@@ -976,15 +1024,73 @@ fn do_raw(cx: &mut Ctx, src: &str, env: &Env, xenv: &[(String, String)], tag: &s
     cx.rep.case(&format!("{src}|{}", env_wire(env, xenv)), imp.is_some());
     cx.rep.count(&format!("src/{tag}"));
     cx.rep.count(if imp.is_some() { "raw:parsed" } else { "raw:parse-panic" });
-    if let Some((_, v)) = &imp {
+    if let Some((d, v)) = &imp {
         if v == "panic" {
             // evaluation must never panic, whatever tree the parser produced
             cx.rep.violation(json!({"kind": "eval-panic-raw"}), &format!("evaluation of {src:?} panics"),
                 json!({"formula": src, "env": env_wire(env, xenv)}));
         }
+        // a text the reference grammar rejects must not silently yield a tree (a value computed
+        // from part of the text): the implementation has to refuse it
+        if let Err(why) = ref_parse(src) {
+            let reason = if why.contains("trailing") { "trailing-tokens" } else if why.contains("literal") { "literal" } else { "syntax" };
+            cx.rep.count(&format!("raw:accepted-malformed/{reason}"));
+            cx.rep.violation(json!({"kind": "accepts-malformed", "reason": reason}),
+                &format!("{src:?} is not a well-formed formula ({why}) but parse returns the tree {d}"),
+                json!({"formula": src, "env": env_wire(env, xenv)}));
+        }
     }
     let req = format!("c05 run {} {} {}", profile(), hex(src.as_bytes()), env_wire(env, xenv));
-    cx.pending.push((req, impl_answer(&imp), true));
+    // tolerance only when a libm-dependent operation can be involved
+    let libm = src.contains("**") || ["SIN", "COS", "TAN", "EXP", "LN", "LG"].iter().any(|f| src.contains(f))
+        || xenv.iter().any(|x| x.1.contains("**") || ["SIN", "COS", "TAN", "EXP", "LN", "LG"].iter().any(|f| x.1.contains(f)));
+    cx.pending.push((req, impl_answer(&imp), libm));
+}
+
+/// Text of unknown status: a formula the reference grammar accepts is a full case, anything else
+/// goes to the malformed stream.
+fn do_any(cx: &mut Ctx, src: &str, env: &Env, tag: &str) {
+    if !src.is_ascii() {
+        return;
+    }
+    match ref_parse(src) {
+        Ok(t) => {
+            cx.rep.count("malformed-stream:well-formed-after-mutation");
+            do_case(cx, &t, src, env, tag)
+        }
+        Err(_) => do_raw(cx, src, env, &[], tag),
+    }
+}
+
+/// End-to-end through the XML loader: the formula text is XML-escaped into a `<Formula>`
+/// element of a SwissKnife, the description is built with the real `GenApiBuilder`, and the tree
+/// the node holds must be the generated tree (the loader hands entity-decoded text to the lexer,
+/// which decodes entities once more).
+fn do_xml(cx: &mut Ctx, t: &T, src: &str) {
+    let esc = src.replace('&', "&amp;").replace('<', "&lt;").replace('>', "&gt;");
+    let xml = format!(
+        "<RegisterDescription ModelName=\"M\" VendorName=\"V\" StandardNameSpace=\"None\" SchemaMajorVersion=\"1\" SchemaMinorVersion=\"1\" SchemaSubMinorVersion=\"0\" MajorVersion=\"1\" MinorVersion=\"0\" SubMinorVersion=\"0\" ProductGuid=\"a\" VersionGuid=\"b\">\n<SwissKnife Name=\"F\"><Formula>{esc}</Formula></SwissKnife>\n</RegisterDescription>"
+    );
+    cx.rep.count("xml-path");
+    let got = catch(|| {
+        let (_, store, _) = GenApiBuilder::<DefaultNodeStore>::default().no_cache().build(&xml).map_err(|e| e.to_string())?;
+        let id = store.id_by_name("F").ok_or("node F not found")?;
+        match store.node_opt(id) {
+            Some(NodeData::SwissKnife(n)) => Ok(dump_expr(n.formula().expr())),
+            _ => Err("F is not a SwissKnife".to_string()),
+        }
+    });
+    let want = dump_t(t);
+    let got_s = match got {
+        Err(()) => "panic".to_string(),
+        Ok(Err(e)) => format!("error {e}"),
+        Ok(Ok(d)) => d,
+    };
+    cx.rep.case(&format!("xml|{src}"), true);
+    if got_s != want {
+        cx.rep.violation(json!({"kind": "xml-path"}),
+            &format!("formula {src:?} loaded from XML holds {got_s}, expected {want}"), json!({"formula": src, "env": "-", "xml": true}));
+    }
 }
 
 fn render_variants(cx: &mut Ctx, rng: &mut Rng, t: &T, env: &Env, tag: &str, all: bool) {
@@ -1040,6 +1146,7 @@ fn main() {
             }
         }
         match ref_parse(src) {
+            Ok(t) if r["xml"] == true => do_xml(&mut cx, &t, src),
             Ok(t) => do_case(&mut cx, &t, src, &env, "replay"),
             Err(_) => {
                 // not well-formed for the reference grammar: a recorded syntax probe
@@ -1177,6 +1284,12 @@ fn main() {
         let t = gen_tree(&mut rng, d);
         let env = gen_env(&mut rng, &fv);
         render_variants(&mut cx, &mut rng, &t, &env, "random-tree", i % 8 == 0);
+        if i % 10 == 0 {
+            let mut toks = vec![];
+            render(&t, 0, Paren::Random, &mut rng, &mut toks);
+            let src = join(&toks, Ws::Xml, Ent::Never, &mut rng);
+            do_xml(&mut cx, &t, &src);
+        }
         if i % 3 == 0 {
             let env2 = gen_env(&mut rng, &fv);
             render_variants(&mut cx, &mut rng, &t, &env2, "random-tree", false);
@@ -1244,11 +1357,11 @@ fn main() {
             src.remove(i);
         }
         let env = gen_env(&mut rng, &fv);
-        do_raw(&mut cx, &src, &env, &[], "malformed");
+        do_any(&mut cx, &src, &env, "malformed");
     }
     for src in ["", " ", "1 2", "(1))", "+-1", "-+1", "++1", "1 +", "0x", "9223372036854775808", "0x8000000000000000", "1.2.3", ".", "..", "1e5",
-        "PI(1)", "FOO(1)", "SIN 1", "SIN()", "a ? b", "a ? b : ", "1 &amp;amp; 1", "&am", "&lt", "1 &", "1 $", "1 2 $", "_a", "a..b", "0X1F", "1.e", "0x1G", "(((((1)))))", "- - - 1", "~~~1", "1 ? 2 : 3 ? 4 : 5"] {
-        do_raw(&mut cx, src, &vec![], &[], "malformed-fixed");
+        "PI(1)", "FOO(1)", "SIN 1", "SIN()", "a ? b", "a ? b : ", "1 &amp;amp; 1", "&am", "&lt", "1 &", "1 $", "1 2 $", "_a", "a..b", "0X1F", "1.e", "0x1G", "2 * 1e3", "1.5E3 + 1", "0X10", "(1)) + 5", "1e", "1e+", ".e5", "2E", "1 e5", "0x10000000000000000", "+ + 1", "+~1", "a ** +b", "1.5e3.2", "1e5e5", "(((((1)))))", "- - - 1", "~~~1", "1 ? 2 : 3 ? 4 : 5"] {
+        do_any(&mut cx, src, &vec![], "malformed-fixed");
     }
 
     // ---- 7. syntax of the standard that the reference grammar above does not cover --------
